@@ -354,8 +354,6 @@ def classify(st, op, other_consistent=True):
         if any(b.rocktype.name == op[1] and b.rocktype is not reg for b in g.blocklist):
             return True, 'rename_rocktype:stale-rocktype-object'
         return True, 'rename_rocktype:registered-object'
-    if k == 'dc' and op[1] == op[2] and (op[1], op[2]) in g.connection: return True, 'delete_connection:self-connection'
-    if k == 'db' and (op[1], op[1]) in g.connection: return True, 'delete_block:self-connection'
     names = {'ar': 'add_rocktype', 'cr': 'clean_rocktypes', 'db': 'delete_block', 'dm': 'demote_block',
              'ac': 'add_connection', 'dc': 'delete_connection'}
     return True, names.get(k, k) + ':any'
@@ -443,11 +441,8 @@ def do_step(w, st, op, t, dual, hash_mode, cls=None):
     except Exception as e:
         name = exn_name(e)
         if not caught: return 'E:' + name, name, True
-        if key and not key.endswith(':self-connection'): key = key.split(':')[0] + ':refused-call'
+        if key: key = key.split(':')[0] + ':refused-call'
         ok = w.after(st, op, t, dom, key)
-        # (a refused delete_block ends the comparison with the model: Python walks a set of connection names, the model a
-        #  list; the statement has been evaluated on what it left behind all the same)
-        if (op[1][0] if op[0] == 'x' else op[0]) == 'db': return 'E:' + name, name, True
         d = dump_st(st, dual)
         return 'E:%s@%s' % (name, adler(d) if hash_mode else d if ok else d + '!'), name, False
     ok = w.after(st, op, t, dom, key)
@@ -1276,8 +1271,7 @@ def run(ctx):
                         'fixpair, 20% of the fresh names of the random sweep, maps respelled in unfixed form)',
                         'a REFUSED edit (the method raises) of a consistent grid does not end the sequence: the caller catches the exception and goes on; the statement is '
                         'evaluated on what the refused edit left behind and the dump is compared with the model (GridEdit.after). Only an exception raised on a grid that '
-                        'is already inconsistent (after a known finding / an edit outside the quantifier) ends the sequence, and so does a refused delete_block for the '
-                        'comparison with the model (Python walks a set of connection names); the statement is evaluated after it all the same',
+                        'is already inconsistent (after a known finding / an edit outside the quantifier) ends the sequence',
                         '"rock type registered" is read by name (block.rocktype.name is a key of grid.rocktype), as t2data/t2grid themselves use it',
                         'the operands of __add__ / embed are consistent grids; after the sum the operands are not edited any more (the result holds their objects: '
                         'editing an operand edits the result behind its back; such edits are run for the model/implementation comparison and not held against the statement); '
